@@ -661,6 +661,102 @@ def mpn_gcdext (U an V n : Nat) : Nat × Int :=
   else if n < GCDEXT_DC_THRESHOLD then gcdext_lehmer_n U' V n
   else (Nat.gcd U V, gcdextS U' V)
 
+/-! ### jacobi_2.c (JACOBI_2_METHOD 2): (a/b) for two-limb a, b, b odd -/
+
+/-- label `b_reduced` (jacobi_2.c:311): (a|b) with b a single odd limb; a = ah·B + al odd. -/
+def j2BReduced : Nat → Nat → Nat → Nat → Nat → Int
+  | 0, _, _, _, _ => 0
+  | f + 1, ah, al, bl, bit =>
+      if bl = 1 then bit1ToPN bit                                   -- (a|1) = 1
+      else if ah > 0 then
+        let a := ah * B + al - bl                                   -- ah -= (al < bl); al -= bl
+        let ah := a / B
+        let al := a % B
+        if al = 0 then
+          if ah = 0 then 0
+          else
+            let c := ctz ah
+            jacobi_base (ah >>> c) bl (bit ^^^ twosBit1 (64 + c) bl)  -- goto ab_reduced
+        else
+          let c := ctz al                                           -- c ≥ 1: a - b is even
+          let a := a >>> c
+          j2BReduced f (a / B) (a % B) bl (bit ^^^ twosBit1 c bl)
+      else jacobi_base al bl bit                                    -- ab_reduced
+
+/-- label `cancel_hi` (jacobi_2.c:287): ah = bh. -/
+def j2CancelHi (fuel ah al bl bit : Nat) : Int :=
+  let sw := decide (al < bl)
+  let bit := if sw then bit ^^^ (bl &&& al) else bit                -- swap; bit ^= al & bl
+  let hi := if sw then bl else al
+  let lo := if sw then al else bl
+  let d := hi - lo
+  if d = 0 then 0
+  else
+    let c := ctz d
+    let bit := bit ^^^ twosBit1 c lo
+    let d := d >>> c
+    if d = 1 then bit1ToPN bit
+    else j2BReduced fuel ah lo d (bit ^^^ (lo &&& d))               -- swap (al, bl); bit ^= al & bl; break
+
+/-- the `while (bh > 0)` loop (jacobi_2.c:238); `second` = inside the `while (bh > ah)` loop. -/
+def j2Loop : Nat → Bool → Nat → Nat → Nat → Nat → Nat → Int
+  | 0, _, _, _, _, _, _ => 0
+  | f + 1, false, ah, al, bh, bl, bit =>
+      if bh = 0 then j2BReduced (f + 1) ah al bl bit
+      else if ah > bh then
+        let a := ah * B + al - (bh * B + bl)                        -- sub_ddmmss
+        if a % B = 0 then
+          let c := ctz (a / B)
+          let bit := bit ^^^ twosBit1 (64 + c) bl
+          let nbl := (a / B) >>> c
+          j2BReduced (f + 1) bh bl nbl (bit ^^^ (bl &&& nbl))       -- al = bl; bl = ah >> c; ah = bh
+        else
+          let c := ctz (a % B)
+          let a' := a >>> c
+          j2Loop f false (a' / B) (a' % B) bh bl (bit ^^^ twosBit1 c bl)
+      else if ah = bh then j2CancelHi (f + 1) ah al bl bit
+      else if ah = 0 then j2BReduced (f + 1) bh bl al (bit ^^^ (al &&& bl))   -- swap, ah = bh, break
+      else j2Loop f true ah al bh bl (bit ^^^ (al &&& bl))
+  | f + 1, true, ah, al, bh, bl, bit =>
+      if bh > ah then
+        let b := bh * B + bl - (ah * B + al)
+        if b % B = 0 then
+          let c := ctz (b / B)
+          let bit := bit ^^^ twosBit1 (64 + c) al
+          let nbl := (b / B) >>> c
+          j2BReduced (f + 1) ah al nbl (bit ^^^ (al &&& nbl))
+        else
+          let c := ctz (b % B)
+          let b' := b >>> c
+          j2Loop f true ah al (b' / B) (b' % B) (bit ^^^ twosBit1 c al)
+      else
+        let bit := bit ^^^ (al &&& bl)
+        if ah = bh then j2CancelHi (f + 1) ah al bl bit
+        else j2Loop f false ah al bh bl bit
+
+/-- mpn_jacobi_2 (ap, bp, bit) (jacobi_2.c:175): a = ah·B + al, b = bh·B + bl odd, bit ∈ {0, 1}. -/
+def jacobi_2 (al ah bl bh bit : Nat) : Int :=
+  let bit := bit <<< 1
+  if bh = 0 ∧ bl = 1 then bit1ToPN bit
+  else if al = 0 then
+    if ah = 0 then 0
+    else
+      let c := ctz ah
+      let bit := bit ^^^ twosBit1 (64 + c) bl
+      let nbl := ah >>> c
+      if nbl = 1 then bit1ToPN bit
+      else j2BReduced 1024 bh bl nbl (bit ^^^ (bl &&& nbl))
+  else
+    let c := if al % 2 = 0 then ctz al else 0
+    let a := (ah * B + al) >>> c
+    let bit := if al % 2 = 0 then bit ^^^ twosBit1 c bl else bit
+    let ah := a / B
+    let al := a % B
+    if ah = 0 then
+      if bh > 0 then j2BReduced 1024 bh bl al (bit ^^^ (al &&& bl))
+      else jacobi_base al bl bit
+    else j2Loop 1024 false ah al bh bl bit
+
 /-- mpn_jacobi_n (ap, bp, n, bits) by specification: the Jacobi symbol (a/b), b odd, times the sign
     bit carried in `bits` (mpn_jacobi_init (a, b, s)). -/
 def jacobi_n (a b s : Nat) : Int := (if s % 2 = 1 then -1 else 1) * kronecker a b
